@@ -275,3 +275,26 @@ Proof.
   split; [|split; vm_compute; reflexivity].
   intros X. apply Permutation_length in X. vm_compute in X. discriminate.
 Qed.
+
+(* second facet: a sword beyond the capacity (the restore buff of another component has run out: capacity 8 -> 6)
+   is dropped only at the END of the next elapse call, after it has ticked for the whole call *)
+Definition ord_s4 : xst :=
+  mkX (set_cd x_u0 0) (PG.mk 1 [1] 0 0) 0 0 0 [(40, 43000); (540, 43500); (20, 44000); (520, 44500)].
+Theorem order_chunk_refuted_capacity :
+  exists p s s1 e1 s2 e2 s3 e3 a b,
+    order_inv p s /\ ~ within_capacity p s /\ 0 <= a /\ 0 <= b /\
+    xreduce_spec Order XElapse p a s = Some (s1, e1) /\ xreduce_spec Order XElapse p b s1 = Some (s2, e2) /\
+    xreduce_spec Order XElapse p (a + b) s = Some (s3, e3) /\
+    Forall (uncapped (xp_swi p) a) (x_sw s) /\ Forall (uncapped (xp_swi p) b) (x_sw s1) /\ Forall (uncapped (xp_swi p) (a + b)) (x_sw s) /\
+    length (dealts (e1 ++ e2)) = 31%nat /\ length (dealts e3) = 40%nat /\ s2 = s3.
+Proof.
+  exists ord_p, ord_s4. eexists. eexists. eexists. eexists. eexists. eexists. exists 100, 9900.
+  split; [split; [reflexivity|repeat constructor; cbn; lia]|].
+  split; [vm_compute; intros X; apply X; reflexivity|].
+  split; [lia|]. split; [lia|].
+  split; [vm_compute; reflexivity|]. split; [vm_compute; reflexivity|]. split; [vm_compute; reflexivity|].
+  split; [repeat constructor; vm_compute; reflexivity|].
+  split; [repeat constructor; vm_compute; reflexivity|].
+  split; [repeat constructor; vm_compute; reflexivity|].
+  split; [vm_compute; reflexivity|]. split; vm_compute; reflexivity.
+Qed.
